@@ -58,20 +58,51 @@ func zeroAux() *kernel.Device {
 // cached encodings and the objects it hands out are reported.
 func (w *World) observe(i int, k *keyEntry, full bool, when string) string {
 	var parts []string
-	add := func(name string, b []byte) { parts = append(parts, name+"="+hx(b)) }
+	// Every value an accessor hands out is recorded and then - when the run's
+	// configuration says so - overwritten by the caller at once (bytes
+	// flipped, scalars zeroed, points replaced): the observation itself is a
+	// caller-mutation fault, so that an accessor which returns internal
+	// state on its first call, or only sometimes, is exposed by the very
+	// next observation.
+	scribbled := 0
+	add := func(name string, b []byte) {
+		parts = append(parts, name+"="+hx(b))
+		if w.scribbleObs {
+			for j := range b {
+				b[j] ^= 0xff
+			}
+			scribbled++
+		}
+	}
+	scalarBytes := func(s *secp256k1.Scalar) []byte {
+		b := s.Bytes()
+		if w.scribbleObs {
+			s.Zero()
+			scribbled++
+		}
+		return b
+	}
+	killPoint := func(p *secp256k1.Point) {
+		if w.scribbleObs {
+			p.Identity()
+			scribbled++
+		}
+	}
 	po := protect(func() {
 		switch k.kind {
 		case "priv":
-			kb, sb := k.priv.Bytes(), k.priv.Scalar().Bytes()
+			kb, sb := k.priv.Bytes(), scalarBytes(k.priv.Scalar())
+			if !bytes.Equal(kb, sb) {
+				w.r.Violate("C18", "key-cache-inconsistent", "PrivateKey.Bytes/Scalar", w.step, "%s: key %d (%s): Bytes()=%x but Scalar().Bytes()=%x", when, i, k.how, kb, sb)
+			}
 			add("Bytes", kb)
 			add("Scalar", sb)
 			pub := k.priv.PublicKey()
 			add("Pub", pub.Bytes())
 			add("PubC", pub.CompressedBytes())
-			add("PubPt", pub.Point().UncompressedBytes())
-			if !bytes.Equal(kb, sb) {
-				w.r.Violate("C18", "key-cache-inconsistent", "PrivateKey.Bytes/Scalar", w.step, "%s: key %d (%s): Bytes()=%x but Scalar().Bytes()=%x", when, i, k.how, kb, sb)
-			}
+			pt := pub.Point()
+			add("PubPt", pt.UncompressedBytes())
+			killPoint(pt)
 			if full {
 				add("ASN1", pub.ASN1Bytes())
 				sig, err := k.priv.Sign(secec.RFC6979SHA256(), fixedDigest, nil)
@@ -84,43 +115,51 @@ func (w *World) observe(i int, k *keyEntry, full bool, when string) string {
 			}
 		case "pub":
 			b, c, pt := k.pub.Bytes(), k.pub.CompressedBytes(), k.pub.Point()
+			ptU, ptC := pt.UncompressedBytes(), pt.CompressedBytes()
+			if !bytes.Equal(b, ptU) || !bytes.Equal(c, ptC) {
+				w.r.Violate("C18", "key-cache-inconsistent", "PublicKey.Bytes/Point", w.step, "%s: key %d (%s): cached encodings %x / %x differ from the encodings of Point() %x", when, i, k.how, b, c, ptU)
+			}
 			add("Bytes", b)
 			add("Compressed", c)
-			add("Pt", pt.UncompressedBytes())
-			if !bytes.Equal(b, pt.UncompressedBytes()) || !bytes.Equal(c, pt.CompressedBytes()) {
-				w.r.Violate("C18", "key-cache-inconsistent", "PublicKey.Bytes/Point", w.step, "%s: key %d (%s): cached encodings %x / %x differ from the encodings of Point() %x", when, i, k.how, b, c, pt.UncompressedBytes())
-			}
+			add("Pt", ptU)
+			killPoint(pt)
 			if full {
 				add("ASN1", k.pub.ASN1Bytes())
 				parts = append(parts, fmt.Sprintf("VerifyRaw=%v", k.pub.VerifyRaw(fixedDigest, fixedSigR, fixedSigS)))
 			}
 		case "spriv":
-			kb, sb := k.spriv.Bytes(), k.spriv.Scalar().Bytes()
+			kb, sb := k.spriv.Bytes(), scalarBytes(k.spriv.Scalar())
+			if !bytes.Equal(kb, sb) {
+				w.r.Violate("C18", "key-cache-inconsistent", "SchnorrPrivateKey.Bytes/Scalar", w.step, "%s: key %d (%s): Bytes()=%x but Scalar().Bytes()=%x", when, i, k.how, kb, sb)
+			}
 			add("Bytes", kb)
 			add("Scalar", sb)
 			pub := k.spriv.PublicKey()
 			add("Pub", pub.Bytes())
-			add("PubPt", pub.Point().UncompressedBytes())
-			if !bytes.Equal(kb, sb) {
-				w.r.Violate("C18", "key-cache-inconsistent", "SchnorrPrivateKey.Bytes/Scalar", w.step, "%s: key %d (%s): Bytes()=%x but Scalar().Bytes()=%x", when, i, k.how, kb, sb)
-			}
+			pt := pub.Point()
+			add("PubPt", pt.UncompressedBytes())
+			killPoint(pt)
 			if full {
 				sig, err := k.spriv.Sign(zeroAux(), fixedMsg, nil)
 				parts = append(parts, fmt.Sprintf("Sig=%x/%v", sig, err != nil))
 			}
 		case "spub":
 			b, pt := k.spub.Bytes(), k.spub.Point()
-			add("Bytes", b)
-			add("Pt", pt.UncompressedBytes())
 			x, _ := pt.XBytes()
 			if !bytes.Equal(b, x) || pt.IsYOdd() != 0 {
 				w.r.Violate("C18", "key-cache-inconsistent", "SchnorrPublicKey.Bytes/Point", w.step, "%s: key %d (%s): Bytes()=%x, Point()=%x (must be the even-y point with that x)", when, i, k.how, b, pt.UncompressedBytes())
 			}
+			add("Bytes", b)
+			add("Pt", pt.UncompressedBytes())
+			killPoint(pt)
 			if full {
 				parts = append(parts, fmt.Sprintf("Verify=%v", k.spub.Verify(fixedMsg, fixedSchnorrSig)))
 			}
 		}
 	})
+	if scribbled > 0 {
+		w.r.Res.Faults["caller_overwrites_observed_value"] += scribbled
+	}
 	if po.panicked {
 		return "panic:" + po.msg
 	}
